@@ -19,11 +19,16 @@ def run(ctx):
     if s.get("write_faults", 0) == 0:
         from common import MachineryError
         raise MachineryError("driver delivered no write faults: vacuous")
+    # Marshal vs MarshalWrite vs MarshalEncode with omitempty members that are written and then
+    # retracted, the padding before them swept across every flush threshold (75% of 64..4096)
+    sw = ctx.tv("arshal", "Trace_Arshal", {"seed": ctx.seed, "mode": "c07sweep", "step": 3 if ctx.quick else 1, "maxpad": 5200 if ctx.quick else 9000},
+                consts={"MaxD": 10000})
+    ctx.part("pad_sweep", **{k: v for k, v in sw.items() if not k.startswith("_")})
     ctx.assumptions += ["the flush policy itself is left open: only 'prefix of the fault-free output' and 'flushed at depth 0' are required"]
     # the model behind the trace spec is the one MC_Encoder checks; run its theorem here too so that
     # the evidence states what the model guarantees
     r = ctx.tlc("MC_Encoder", name="MC_Encoder_c07", capture_lines=False,
                 consts={"Calls": CALLS_SMALL, "Fmts": FMTS[:3], "MaxCalls": 3, "MaxD": 10000, "EmitCases": False},
                 invariants=("OutInv",))
-    ctx.cov["distinct_nontrivial"] = n
+    ctx.cov["distinct_nontrivial"] = n + int(sw.get("cases", 0))
     ctx.cov["rule"] = "random call programs x writer kinds x short-write/error schedules (40 scripted outcomes per case)"
